@@ -33,6 +33,10 @@ CLAIMED = {
          "TLC enumerates all histories up to the exhaustive length over a pool of 9 documents (and simulates length-4 ones); each is executed in a forked child of an import-only parent and TLC checks, per operation, that the output digest equals the one from a fresh interpreter, that ValueError is raised exactly by the failing document, and that the caller's DataFrame is unchanged."),
  "C15": ("5 C15", "TLC model checking of all thread interleavings (spec/ColorCtx.tla), TLC-generated schedules replayed on real threads with a settrace gate, single preemption at every library call boundary, conformance of recorded colour events (spec/CtxTrace.tla)",
          "All interleavings of 2 and 3 encoder processes are model-checked; every sampled TLC schedule of colour-context steps is replayed on real threads; thread A is preempted at every distinct library function call (thorough: every call instance) with thread B run to completion, plus sampled 2-3 preemptions with 3 threads; TLC judges that each thread's output equals its output alone and that the recorded colour events are a behaviour of the per-thread-context specification."),
+ "C17": ("5 C17", "TLC model checking of spec/Assemble.tla (files as classified lines) + TLC trace validation (spec/AssembleTrace.tla) of assembled files read back",
+         "All argument lists of up to 2-3 inputs over table/figure x colour x header/footer x 1-2 pages (exhaustive), lists with missing files, simulated lists of up to 6 inputs incl. landscape: the files are written by write_rtf, assembled by assemble_rtf, read back, and TLC checks well-formedness, page-by-page equality with the concatenated inputs, restated geometry at each input's first page, single-input identity, empty list and missing file behaviour."),
+ "C18": ("5 C18", "TLC model checking of spec/Export.tla (fault points x converter outcomes x target states x writers) + TLC trace validation (spec/ExportTrace.tla) of file-system events and before/after snapshots of real exports with injected faults",
+         "Every scenario TLC enumerates is executed: converter stubs for all outcomes, targets absent/existing/in a missing directory, and a BaseException or Exception raised at the first instance of every distinct library call site (thorough: 2500 sampled call instances, all writers); TLC checks that a failure leaves the target bytes, its directory listing and the temporary directory unchanged, that a success puts exactly the expected bytes (and the HTML resource folder) at the target, and that the target is touched only by the final step."),
 }
 PENDING = {}
 
